@@ -449,6 +449,7 @@ VERIFICATION_FAILURES = (
     "decreases not satisfied", "could not prove termination", "possible bit shift underflow/overflow",
     "recommendation not met", "failed this postcondition", "index out of bounds", "unreachable",
     "possible overflow", "possible underflow", "cannot prove", "assert_by_compute", "bounds check", "not satisfied",
+    "unable to prove", "loop invariant not satisfied", "loop ensures not satisfied", "might not hold", "possible arithmetic",
 )
 
 
